@@ -8,7 +8,7 @@ oracle:  the decision table written in Python from the property text / IEC 60870
          fixed address 0 for CS104, mirror = same octets with P/N set and cause 45 / 47 / 44), evaluated on the C output"""
 import json
 from pathlib import Path
-from vf import core, runner
+from vf import core, runner, apci
 
 LEVEL = "proof"
 
@@ -456,6 +456,59 @@ def run_builders(ck, hs, mexe, items):
 
 
 # ------------------------------------------------------------------ entry points
+# ------------------------------------------------------------------ responses parked behind a full k-window (real CS104 server)
+def run_window(ck, rng, quick):
+    """The dispatch theorems model sendASDUInternal as transmitting at once.  Here the real server (h_cs104s, simulated HAL) has its
+    k-window filled by unacknowledged events first; commands with a cause that is not allowed then get their negative responses parked
+    in the high-priority ring until the peer acknowledges: still exactly one response each, in order, mirroring the request."""
+    from props import c07
+    h = c07.harness()
+    scen = []
+    tids = [100, 101, 102, 103, 105, 106, 107]
+    for i in range(60 if quick else 1500):
+        k = rng.choice([1, 2, 3, 12])
+        n = rng.range(2, 5)
+        cmds = []
+        for j in range(n):
+            tid = rng.choice(tids)
+            cot = rng.choice([c for c in (3, 10, 20, 44, 45, 7, 9) if c not in ALLOWED[tid]])
+            ioa = bytes(3) if (tid in FIXED or rng.chance(1, 2)) else bytes([rng.below(256), rng.below(256), 0])
+            cmds.append(apci.asdu(tid, cot, 1, ioa + rng.bytes(BODY[tid])))
+        lines = ["cfg mode=0 k=%d w=8 handlers=64 lowq=50 highq=10 maxconn=0 reqret=1" % k, "start", "connect c0 10.0.0.2:2000", "tick",
+                 "rx c0 " + apci.STARTDT_ACT.hex(), "tick"]
+        lines += ["enq " + c07.ev_asdu(e).hex() for e in range(1, k + 1)] + ["tick %d" % (k + 2)]
+        for j, c in enumerate(cmds):
+            lines += ["rx c0 " + apci.i_frame(j, 0, c).hex(), "tick"]
+        lines += ["rx c0 " + apci.s_frame(k).hex(), "tick %d" % (n + 3)]
+        sent = k
+        # the responses fill the window again when there are more of them than k: acknowledge as they come
+        for a in range(n):
+            lines += ["rx c0 " + apci.s_frame(k + a + 1).hex(), "tick 2"]
+        scen.append(("w%d" % i, k, cmds, lines))
+    res = runner.run_batch(h, [(s[0], s[3]) for s in scen], timeout=1800)
+    for sid, k, cmds, lines in scen:
+        ck.evaluations += 1
+        ck.count("window-parked-response-scenarios")
+        o = res.get(sid, dict(out=[], crash=None))
+        if o["crash"]:
+            ck.fail("input", "crash:%s:%s" % (o["crash"]["kind"], o["crash"]["site"]), "server aborted with responses parked behind a full window: %s at %s" % (o["crash"]["kind"], o["crash"]["site"]),
+                    {"script": lines, "stderr": o["crash"]["text"][-800:]})
+            continue
+        got = []
+        for l in o["out"]:
+            p = l.split()
+            if p and p[0] == "tx" and p[1] == "c0":
+                for f in apci.split_stream(bytes.fromhex(p[2]))[0]:
+                    a = apci.parse_apdu(f)
+                    if a["kind"] == "I" and a["asdu"][0] != 30:
+                        got.append(bytes(a["asdu"]))
+        want = [c[:2] + bytes([0x40 | 45]) + c[3:] for c in cmds]
+        ck.nontriv(("win", k, tuple(c[0] for c in cmds)))
+        if got != want:
+            ck.fail("input", "oracle:s104:parked-responses", "CS104 server, k=%d window full of unacknowledged events, %d commands with a cause that is not allowed: responses after the acknowledgement are %s, expected exactly one mirrored negative response (cause 45) each, in order: %s" % (
+                k, len(cmds), [g.hex() for g in got], [w.hex() for w in want]), {"script": lines, "observed": o["out"][-10:]})
+
+
 def run(ck):
     quick = ck.tier == "quick"
     rng = core.Rng(ck.seed)
@@ -483,6 +536,7 @@ def run(ck):
         items = gen_dispatch(rng, role, quick)
         ndiff += run_dispatch(ck, role, hs[role], mexe, items)
     run_builders(ck, hs, mexe, gen_builders(rng, quick))
+    run_window(ck, rng, quick)
     if not quick:
         # native exhaustive enumeration with the decision table written again in C (harness `sweep`)
         for role in ("s104", "s101"):
